@@ -15,6 +15,7 @@ import (
 	"github.com/bio-routing/bio-rd/route"
 	"github.com/bio-routing/bio-rd/routingtable"
 	"github.com/bio-routing/bio-rd/routingtable/filter"
+	"github.com/bio-routing/bio-rd/routingtable/filter/actions"
 	"github.com/bio-routing/bio-rd/zzverif/vh"
 )
 
@@ -37,6 +38,9 @@ type zvC11Uni struct {
 	// out 2^32 identifiers before), so that identifiers are reused within short histories; such universes also contain
 	// withdrawals of a path a prefix does not hold while another prefix advertises the same attributes ("rmx")
 	Wrap bool `json:"allocator_near_wrap,omitempty"`
+	// Export "set-med": the session's export policy rewrites an attribute, so the path that is stored, hashed and
+	// identified is not the path object the Loc-RIB hands in ("" = accept unchanged)
+	Export string `json:"export_policy,omitempty"`
 }
 
 type zvC11Case struct {
@@ -144,7 +148,11 @@ func zvC11Step(r *vh.Run, u zvC11Uni, hist []zvC11Op) (string, []zvC11Op, bool) 
 	}
 	c := zvC11Case{u, hist}
 	rec := &zvoRec{}
-	a := New(nil, zvC11Session(u.Session), filter.NewAcceptAllFilterChain())
+	chain := filter.NewAcceptAllFilterChain()
+	if u.Export == "set-med" {
+		chain = filter.Chain{filter.NewFilter("set-med", []*filter.Term{filter.NewTerm("t", nil, []actions.Action{actions.NewSetMEDAction(77), actions.NewAcceptAction()})})}
+	}
+	a := New(nil, zvC11Session(u.Session), chain)
 	a.Register(rec)
 	if u.Wrap {
 		a.pathIDManager.last = ^uint32(0) - 2
@@ -166,6 +174,7 @@ func zvC11Step(r *vh.Run, u zvC11Uni, hist []zvC11Op) (string, []zvC11Op, bool) 
 		return -1
 	}
 	ok := true
+	noExtend := false
 	for i, o := range hist {
 		last := i == len(hist)-1
 		cl := zvC11Class[o.X]
@@ -272,8 +281,10 @@ func zvC11Step(r *vh.Run, u zvC11Uni, hist []zvC11Op) (string, []zvC11Op, bool) 
 			present[o.P][cl] = false
 			calls := rec.take()
 			if len(calls) == 0 {
+				// no withdrawal reached the client: whether the peer's view follows the table is C10's clause, but the
+				// allocator must still agree with the table - the state oracles below run, the history is not extended
 				r.Count("pruned_withdrawal_missing", 1)
-				ok = false
+				noExtend = true
 				break
 			}
 			want := annID[o.P][cl]
@@ -299,7 +310,7 @@ func zvC11Step(r *vh.Run, u zvC11Uni, hist []zvC11Op) (string, []zvC11Op, bool) 
 			}
 			annID[o.P][cl] = 0
 		}
-		if !ok {
+		if !ok || noExtend {
 			break
 		}
 	}
@@ -360,7 +371,7 @@ func zvC11Step(r *vh.Run, u zvC11Uni, hist []zvC11Op) (string, []zvC11Op, bool) 
 			}
 		}
 	}
-	if !ok {
+	if !ok || noExtend {
 		return "dead:" + fmt.Sprint(hist), nil, false
 	}
 
@@ -453,10 +464,10 @@ func zvC11Universes(thorough bool) []zvC11Uni {
 		for _, p2 := range []string{"otc", "unknown_attr", "aggregator", "atomic_aggregate"} {
 			for _, p3 := range []string{"community", "as_path_content", "med"} {
 				if thorough || (p3 == "community" && (s == "ibgp" || s == "ebgp")) {
-					big = append(big, zvC11Uni{s, p2, p3, 3, 3, false})
+					big = append(big, zvC11Uni{s, p2, p3, 3, 3, false, ""})
 				}
 				if !thorough {
-					small = append(small, zvC11Uni{s, p2, p3, 2, 3, false})
+					small = append(small, zvC11Uni{s, p2, p3, 2, 3, false, ""})
 				}
 			}
 		}
@@ -471,12 +482,18 @@ func zvC11Universes(thorough bool) []zvC11Uni {
 	var tight []zvC11Uni
 	for _, s := range []string{"ibgp", "ebgp"} {
 		for _, l := range []uint32{1, 2} {
-			tight = append(tight, zvC11Uni{s, "otc", "community", 2, l, false})
+			tight = append(tight, zvC11Uni{s, "otc", "community", 2, l, false, ""})
 		}
 	}
 	// the allocator about to wrap around, with no-op withdrawals in the alphabet
 	for _, s := range []string{"ibgp", "ebgp"} {
-		tight = append(tight, zvC11Uni{s, "otc", "community", 2, 3, true})
+		tight = append(tight, zvC11Uni{s, "otc", "community", 2, 3, true, ""})
+	}
+	// a rewriting export policy
+	for _, s := range []string{"ibgp", "ebgp"} {
+		for _, p3 := range []string{"community", "as_path_content"} {
+			tight = append(tight, zvC11Uni{s, "otc", p3, 2, 3, false, "set-med"})
+		}
 	}
 	return append(append(big, small...), tight...) // the expensive ones first: they spread evenly over the shards
 }
@@ -490,7 +507,7 @@ func TestVerifC11(t *testing.T) {
 	zvoTune()
 	r.Rule("per universe (session kind ibgp|rs-client|ebgp|rr-client x attribute in which path 2 differs from path 0 outside ComputeHash x attribute in which path 3 differs), " +
 		"identifier space 3 (= number of distinct attribute sets: allocation must never fail) plus universes with identifier space 1 and 2 (allocation may fail only while that many identifiers are in use), " +
-		"two universes with the allocator's counter about to wrap around and withdrawals of paths a prefix does not hold in the alphabet; " +
+		"two universes with the allocator's counter about to wrap around and withdrawals of paths a prefix does not hold in the alphabet, four universes with an export policy that rewrites an attribute (set MED); " +
 		"BFS over all AddPath/RemovePath histories of 4 Loc-RIB paths (0 and 1 attribute-identical) on 3 prefixes (quick: 2 prefixes for every universe, 3 prefixes for 8 of them) against a real add-path AdjRIBOut until the canonical state " +
 		"(model, table, peer view, private pathIDManager maps and counters; identifiers ranked) set closes; evaluations = universes explored")
 	r.Require(zvC11Required...)
